@@ -254,33 +254,46 @@ where
         let mut pos = 0;
         let mut last_offset_slot = None::<&mut [u8]>;
 
+        // Start from empty vector.
+        L::zero().emplace(&mut *data)?;
+
+        let mut result = Ok(());
         for item_emplacer in self.iter {
             if data.len() < offset_size {
-                return Err(Error {
+                result = Err(Error {
                     kind: ErrorKind::InsufficientSize,
                     pos,
                 });
+                break;
             }
             let (offset_slot, payload) = data.split_at_mut(offset_size);
-            let item = item_emplacer.emplace(payload)?;
-            let payload_size = ceil_mul(item.size(), FlexVec::<T, L>::ALIGN);
-            let offset = offset_size + payload_size;
-            L::from_usize(offset)
-                .and_then(|o| if o < L::max_value() { Some(o) } else { None })
-                .ok_or(Error {
-                    kind: ErrorKind::InsufficientSize,
-                    pos,
-                })?
-                .emplace(offset_slot)?;
+            let (offset, stored_offset) = match item_emplacer.emplace(payload).and_then(|item| {
+                let offset = offset_size + ceil_mul(item.size(), FlexVec::<T, L>::ALIGN);
+                L::from_usize(offset)
+                    .and_then(|o| if o < L::max_value() { Some(o) } else { None })
+                    .map(|o| (offset, o))
+                    .ok_or(Error {
+                        kind: ErrorKind::InsufficientSize,
+                        pos,
+                    })
+            }) {
+                Ok(offsets) => offsets,
+                Err(e) => {
+                    result = Err(e);
+                    break;
+                }
+            };
+            stored_offset.emplace(offset_slot)?;
             last_offset_slot = Some(offset_slot);
 
-            data = payload.split_at_mut(payload_size).1;
+            data = payload.split_at_mut(offset - offset_size).1;
             pos += offset;
         }
-        match last_offset_slot {
-            Some(offset_slot) => L::max_value().emplace(offset_slot)?,
-            None => L::zero().emplace(data)?,
-        };
+        // Terminate the chain even if some item failed, so the vector remains valid.
+        if let Some(offset_slot) = last_offset_slot {
+            L::max_value().emplace(offset_slot)?;
+        }
+        result?;
 
         Ok(vec)
     }
